@@ -95,6 +95,26 @@ func runOne(ctx context.Context, sp solverSpec, file string, timeoutMs int) (sta
 	return "error", out, secs
 }
 
+// SolveSeeded retries an undecided query on the two z3-new configurations with other random seeds
+// (the search of an SMT solver over quantified facts is heuristic: an "unknown" is often an
+// artefact of one instantiation order). Only "unsat" is accepted from it.
+func SolveSeeded(script string, dir, name string, timeoutMs int) SolveResult {
+	file := filepath.Join(dir, name+".smt2")
+	for seed := 1; seed <= 3; seed++ {
+		for _, extra := range [][]string{{}, {"smt.mbqi=false", "smt.auto_config=false"}} {
+			sd := itoa(seed * 7919)
+			args := append([]string{"z3-new", "-T:" + itoa(timeoutMs/1000+1), "-t:" + itoa(timeoutMs), "smt.random_seed=" + sd, "sat.random_seed=" + sd}, extra...)
+			args = append(args, file)
+			sp := solverSpec{name: "z3-new(seed " + sd + ")", args: func(string, int) []string { return args }}
+			st, out, secs := runOne(context.Background(), sp, file, timeoutMs)
+			if st == "unsat" {
+				return SolveResult{Status: "unsat", Solver: sp.name, Seconds: secs, Output: out}
+			}
+		}
+	}
+	return SolveResult{Status: "unknown"}
+}
+
 // Solve races the solvers. In "all" mode every solver runs to completion and results are recorded.
 func Solve(script string, dir, name string, timeoutMs int, all bool) SolveResult {
 	file := filepath.Join(dir, name+".smt2")
